@@ -42,8 +42,9 @@ TRUSTED = ['model TileSvc.v hand-written from service/tile.py, service/wmts.py, 
            'skip_odd (res[0]/res[1] == math.sqrt(2)) is an input of the model, taken from the configuration (res_factor: sqrt2)']
 ASSUMPTIONS = ['resolutions positive (strictly decreasing for same_ground_tile_same_internal), bbox non-degenerate, tile size positive',
                'tms_address_exact: layer extent = grid bbox and (origin ll or tiled area bottom-aligned at that level) - excludes exactly finding F8',
-               'wmts_address_exact / kml: no sqrt2 level skip - excludes exactly the new findings W1 / K1',
-               'coordinates below 10^12 lattice quanta (the 1e-12 tolerance of supports_access_with_origin then admits no misalignment)']
+               'wmts_address_exact / kml_href_roundtrip: no sqrt2 level skip - excludes exactly the new findings W1 / K1',
+               'origin_override_exact / kml_address_exact: the effective origin is the grid origin or the level is bottom-aligned (misalign = 0)',
+               'meter_per_unit positive (wmts scale denominator)']
 EXPLANATION = ('address -> internal coordinate and capabilities -> client rectangle proved equal over Z for all grids; real app '
                'compared on exact and realistic grid configurations')
 HERE = os.path.dirname(os.path.dirname(os.path.dirname(os.path.abspath(__file__))))
@@ -909,8 +910,8 @@ def corpus_layers():
 def run(ctx):
     R = Run(ctx)
     rng = ctx.rng
-    R.full_limit = ctx.n(9, 36)
-    R.k = ctx.n(3, 12)
+    R.full_limit = ctx.n(9, 49)
+    R.k = ctx.n(3, 16)
     R.obs = Observer()
     import logging
     logging.disable(logging.CRITICAL)
@@ -927,7 +928,7 @@ def run(ctx):
             by_origin.setdefault(o, []).append(spec)
         for o, specs in sorted(by_origin.items(), key=lambda kv: str(kv[0])):
             batches.append((specs, o))
-        n_exact = ctx.n(12, 60)
+        n_exact = ctx.n(12, 100)
         exact = [gen_exact_layer(rng, i) for i in range(n_exact)]
         per = 6
         for k in range(0, len(exact), per):
